@@ -65,6 +65,13 @@ def semantic_corpus():
     yield "query ($v: Int, $x: Float, $site: Site, $a: Boolean, $foo: ComplexType) { friend { foo(size: $v, fl: $x, e: $site, t: $a, obj: $foo) } }"
     yield "query ($v: [Int], $a: String = \"d\", $x: ID) { f(a: $v) node(id: [$x]) { id } unnamed(truthy: true) @include(if: true) }"
     yield "subscription ($input: StoryLikeSubscribeInput) { storyLikeSubscribe(input: $input) { story { id } } }"
+    # names that later stages look up in tables / Enum classes without a guard of their own
+    for nm in ("mro", "__doc__", "__members__", "name", "value", "_member_map_", "QUERY", "query"):
+        yield "directive @d on %s\n{ a }" % nm
+        yield "{ a @%s }" % nm
+        yield "{ %s: a %s }" % (nm, nm)
+        yield "query %s ($%s: Int) { unnamed(nullish: $%s) @include(if: true) }" % (nm, nm, nm)
+        yield "%s { a }" % nm
     yield "query ($a: Int = $a) { unnamed(nullish: $a) }"
     yield "query ($a: ComplexType = {inner: $a}) { f(b: $a) }"
     yield "{ f(b: {inner: {inner: {inner: {n: [1, null]}}}}) }"
